@@ -68,7 +68,7 @@ class Scenarios:
             scn.append({"sid": it["sid"] + 1, "main": "%d/%s" % (i, it["main"]),
                         "twin": 0 if it["twin"] is None else it["twin"] + 1,
                         "culprit": self._culprit(i, it),
-                        "opts": [{"path": [enc(p) for p in o["path"]], "val": enc(o["val"])} for o in it["opts"]]})
+                        "opts": [enc_chars(o) for o in it["opts"]]})
         return {"scn": scn, "res": res, "resolve": resolve}
 
     def tables(self):
@@ -78,8 +78,9 @@ class Scenarios:
             for lines in it["files"].values():
                 vocabs.append(lines)
             for o in it["opts"]:
-                extra_k.update(o["path"])
-                extra_v.add(o["val"])
+                if "=" in o:
+                    extra_k.update(o.split("=", 1)[0].split("/"))
+                    extra_v.add(o.split("=", 1)[1])
         toks = set(extra_k)
         vals = set(extra_v)
         for v in vocabs:
@@ -171,6 +172,8 @@ class Workspace:
 def url_to_name(url, base):
     if not url:
         return ""
+    if not isinstance(url, str):
+        return "~not-a-url:%r" % (url,)
     if url.startswith("file://"):
         p = urllib.parse.unquote(url[len("file://"):])
         if p.startswith(base + "/"):
@@ -184,7 +187,7 @@ def run_real(ws, schema, rec, item, loader_factory=None):
     import ZConfig
     base = ws.materialise(item["files"])
     main = os.path.join(base, item["main"])
-    ovs = ["/".join(o["path"]) + "=" + o["val"] for o in item["opts"]]
+    ovs = list(item["opts"])
     try:
         if loader_factory is not None:
             cfg, handler = loader_factory(schema, ovs).loadURL(main)
